@@ -40,8 +40,8 @@ PROPS = {
                         'math/rand stream reproduced by rand.Seed for the correspondence check'],
     },
     'C03': {
-        'lean_modules': ['C03', 'ArithTieCMS', 'C03Machine', 'ArithTieCMSCells'],
-        'required_theorems': ['C03_machine_refines_history', 'C03_machine_lower', 'C03_machine_upper', 'C03_machine_exact_single', 'C03_machine_wraps', 'C03_machine_mod', 'tie_cmsCellUpdate', 'tie_cmsAllSumUpdate', 'tie_cmsPosition', 'C03_lower', 'C03_upper', 'C03_exact_single', 'C03_empty_zero', 'C03_concrete'],
+        'lean_modules': ['C03', 'ArithTieCMS', 'C03Machine', 'ArithTieCMSCells', 'LoopTieCMS', 'LoopTieCMSKernels'],
+        'required_theorems': ['tie_loop_update', 'tie_loop_count', 'tie_loop_getPositions', 'loops_all_translated', 'C03_machine_refines_history', 'C03_machine_lower', 'C03_machine_upper', 'C03_machine_exact_single', 'C03_machine_wraps', 'C03_machine_mod', 'tie_cmsCellUpdate', 'tie_cmsAllSumUpdate', 'tie_cmsPosition', 'C03_lower', 'C03_upper', 'C03_exact_single', 'C03_empty_zero', 'C03_concrete'],
         'suites': ['cms', 'conc', 'redisconc'],
         'race_suites': ['conc'],
         'level': 'proof',
@@ -95,8 +95,8 @@ PROPS = {
         'assumptions': ['all header fields < 2^64; float parameters travel as bit patterns', 'bits-and-blooms/bitset WriteTo/ReadFrom format as transcribed (tie-checked)'],
     },
     'C12': {
-        'lean_modules': ['C12', 'C03Machine', 'ArithTieCMSCells'],
-        'required_theorems': ['C12_machine_merge_union', 'C12_machine_wraps', 'tie_cmsCellMerge', 'C03_machine_refines_merge', 'C12_merge_union', 'C12_merge_comm', 'C12_merge_assoc', 'C12_merge_then_update', 'C12_counts_after_merge', 'C12_mismatch'],
+        'lean_modules': ['C12', 'C03Machine', 'ArithTieCMSCells', 'LoopTieCMS'],
+        'required_theorems': ['tie_loop_merge', 'tie_loop_merge_rejected', 'C12_machine_merge_union', 'C12_machine_wraps', 'tie_cmsCellMerge', 'C03_machine_refines_merge', 'C12_merge_union', 'C12_merge_comm', 'C12_merge_assoc', 'C12_merge_then_update', 'C12_counts_after_merge', 'C12_mismatch'],
         'suites': ['cms', 'redisconc', 'conc'],
         'race_suites': ['conc'],
         'level': 'proof',
